@@ -54,7 +54,7 @@ class C18(Plugin):
     pid = "C18"
     entry = 18
     prop = 18
-    counts = {"quick": 160, "thorough": 5000}
+    counts = {"quick": 160, "thorough": 15000}
     rule = ("case = (strict converter with URI-prefix synonyms, a few of them containing characters rdflib rejects in IRIs; 3 queries (URI, "
             "configured predicate or another predicate), each issued four ways: ?s bound / ?o bound x VALUES inside / after the WHERE block, through "
             "graph.query with the custom processor; the first query also through Flask GET and POST and FastAPI GET; 12 Accept headers from an "
